@@ -3,6 +3,7 @@ package props
 import (
 	"fmt"
 	"go/ast"
+	"go/token"
 	"strings"
 
 	"verif/checker/core"
@@ -65,16 +66,41 @@ func tmplC09(c *core.Check) {
 			if !strings.Contains(r.R.Text, "_unknownFields unknown.Fields") {
 				agg.fail("unknown-carrying", k, "under ["+r.R.Valuation+"]: the struct has no _unknownFields unknown.Fields member")
 			}
+			// a union is only writable when exactly one member is counted as set: a member kept in _unknownFields (added by a
+			// newer schema) has to count, otherwise the value can be read but never written back
+			for _, d := range r.P.File.Decls {
+				cf, ok := d.(*ast.FuncDecl)
+				if !ok || !strings.HasPrefix(cf.Name.Name, "CountSetFields") {
+					continue
+				}
+				agg.check("unknown-union-member-counted", k)
+				counted := false
+				ast.Inspect(cf.Body, func(n ast.Node) bool {
+					if is, ok := n.(*ast.IfStmt); ok && strings.Contains(rules.ExprText(is.Cond), "_unknownFields") {
+						for _, st := range is.Body.List {
+							if inc, ok := st.(*ast.IncDecStmt); ok && inc.Tok == token.INC {
+								counted = true
+							}
+						}
+					}
+					return true
+				})
+				if !counted {
+					agg.fail("unknown-union-member-counted", k, "under ["+r.R.Valuation+"]: "+cf.Name.Name+" ignores _unknownFields: a union whose set member was added by a newer schema is read (the member is kept) but Write fails with 'exactly one field must be set (0 set)', so the data cannot be forwarded")
+				}
+			}
 		}
 	})
 	agg.flush(c, map[string]string{
-		"unknown-read-arm":       "the unknown-id arm appends to _unknownFields iff keep_unknown_fields (else skips); exactly one consumption per header",
-		"unknown-write-position": "_unknownFields.Write sits after all known field writers and before WriteFieldStop, iff keep_unknown_fields",
-		"unknown-carrying":       "CarryingUnknownFields reports len(p._unknownFields) > 0 on the declared storage",
+		"unknown-read-arm":             "the unknown-id arm appends to _unknownFields iff keep_unknown_fields (else skips); exactly one consumption per header",
+		"unknown-write-position":       "_unknownFields.Write sits after all known field writers and before WriteFieldStop, iff keep_unknown_fields",
+		"unknown-carrying":             "CarryingUnknownFields reports len(p._unknownFields) > 0 on the declared storage",
+		"unknown-union-member-counted": "with keep_unknown_fields a union counts a member kept in _unknownFields as set",
 	})
 	c.Min("unknown-read-arm", 1)
 	c.Min("unknown-write-position", 1)
 	c.Min("unknown-carrying", 1)
+	c.Min("unknown-union-member-counted", 1)
 }
 
 // relay copies the failures of selected rules of a sub-aggregate into one rule of the main aggregate.
